@@ -206,7 +206,8 @@ def run(ctx):
                 res.check(a == b, "Q-PRED", f, f"nodes vs hyperedges ({mode})", "siblings", "nodes and hyperedges are selected by different predicates", loc(v.fi, v.fi.node))
     # mode validation
     with res.guard("mode validation"):
-        val = [n for n in walk_no_nested(v.fi.node) if isinstance(n, ast.If) and "mode" in {x.id for x in ast.walk(n.test) if isinstance(x, ast.Name)} and any(isinstance(b, ast.Raise) for b in n.body)]
+        # (`mode_is_valid = mode in {...}; if not mode_is_valid: raise`: boolean locals are folded back into the test)
+        val = [n for n in walk_no_nested(v.fi.node) if isinstance(n, ast.If) and "mode" in {x.id for x in ast.walk(v.inline(n.test)) if isinstance(x, ast.Name)} and any(isinstance(b, ast.Raise) for b in n.body)]
         def mode_set(t):
             """constants the test compares `mode` against (module-level constants followed)"""
             out = set()
@@ -226,7 +227,7 @@ def run(ctx):
             uses_mode = any(isinstance(x, ast.Name) and x.id == "mode" for x in ast.walk(v.fi.node))
             res.add("Q-PRED", f, "mode not in {'keep','remove'}", "mode-validated", "violation" if uses_mode and not any(ctx.callees(v.fi, c) for c in walk_no_nested(v.fi.node) if isinstance(c, ast.Call) and any(isinstance(a_, ast.Name) and a_.id == "mode" for a_ in c.args)) else "unknown", "other mode strings are not rejected (the predicate is only meaningful for keep / remove)", loc(v.fi, v.fi.node))
         for x in val:
-            ms = mode_set(x.test)
+            ms = mode_set(v.inline(x.test))
             st_ = "ok" if ms == {"keep", "remove"} else ("violation" if ms and ms != {"keep", "remove"} else "unknown")
             res.add("Q-PRED", f, norm(x.test), "mode-validated", st_, "" if st_ == "ok" else f"the mode check accepts / rejects {sorted(ms)} instead of exactly keep / remove", loc(v.fi, x))
     # ---- E-2PHASE
@@ -305,11 +306,29 @@ def run(ctx):
         wname = norm(wdef[0].targets[0])
         outer = b.enclosing(wdef[0], (ast.For,))
         res.check(outer is not None and norm(wdef[0].value.args[0]) == norm(outer.target), "V-MULT", fb, norm(wdef[0]), "weight-of-edge", "the multiplicity is not the weight of the hyperedge being expanded", loc(b.fi, wdef[0]))
-        reps = [n for n in ast.walk(outer) if isinstance(n, ast.For) and norm(n.iter) == f"range({wname})"] if outer is not None else []
-        res.check(len(reps) == 1, "V-MULT", fb, f"for _ in range({wname})", "multiplicity", "a hyperedge of weight w does not contribute w occurrences", loc(b.fi, outer or b.fi.node))
+        def _range_arg(it):
+            if isinstance(it, ast.Name):
+                it = b.resolve(it)  # `copies = range(w)`
+            if isinstance(it, ast.Call) and norm(it.func) == "range" and len(it.args) == 1:
+                a_ = it.args[0]
+                if isinstance(a_, ast.Call) and norm(a_.func) == "int" and a_.args:
+                    a_ = a_.args[0]
+                return a_
+            return None
+
+        loops_ = [n for n in ast.walk(outer) if isinstance(n, ast.For) and n is not outer] if outer is not None else []
+        reps = [n for n in loops_ if _range_arg(n.iter) is not None and norm(_range_arg(n.iter)) == wname]
+        other = [n for n in loops_ if _range_arg(n.iter) is not None and norm(_range_arg(n.iter)) != wname]
+        if len(reps) == 1:
+            res.ok("V-MULT", fb, f"for _ in range({wname})", "multiplicity", loc(b.fi, reps[0]))
+        elif other or not any(isinstance(x, ast.Name) and x.id == wname and isinstance(x.ctx, ast.Load) for x in ast.walk(outer or b.fi.node)):
+            # repeated another number of times, or the weight is never used at all
+            res.violation("V-MULT", fb, f"for _ in range({wname})", "multiplicity", "a hyperedge of weight w does not contribute w occurrences", loc(b.fi, outer or b.fi.node))
+        else:
+            res.unknown("V-MULT", fb, f"for _ in range({wname})", "multiplicity", "how the weight turns into a number of occurrences was not recognised", loc(b.fi, outer or b.fi.node))
         for rp in reps:
             apps = [n for n in ast.walk(rp) if isinstance(n, ast.Call) and isinstance(n.func, ast.Attribute) and n.func.attr == "append"]
-            used = {x.id for a in apps for x in ast.walk(a) if isinstance(x, ast.Name)}
+            used = {x.id for a in apps for x in ast.walk(b.inline(a, depth=1)) if isinstance(x, ast.Name)}
             incs = [n for n in rp.body if isinstance(n, ast.AugAssign) and isinstance(n.target, ast.Name)] + [n for n in rp.body if isinstance(n, ast.Assign) and isinstance(n.targets[0], ast.Name) and isinstance(n.value, ast.BinOp) and norm(n.value.left) == norm(n.targets[0])]
             ids = [n for n in incs if (n.target.id if isinstance(n, ast.AugAssign) else n.targets[0].id) in used]
             def by_one(n):
@@ -320,7 +339,19 @@ def run(ctx):
             else:
                 res.unknown("V-MULT", fb, "edge_index += 1", "one-id-per-occurrence", "the occurrence counter was not recognised", loc(b.fi, rp))
             if apps:
-                res.check(all(b.enclosing(a, (ast.For,)) is not rp and norm(b.enclosing(a, (ast.For,)).iter) == norm(outer.target) for a in apps), "V-MULT", fb, norm(apps[0]), "all-nodes", "an occurrence does not list every node of the hyperedge", loc(b.fi, rp))
+                sts = []
+                for a in apps:
+                    lp = b.enclosing(a, (ast.For, ast.While))
+                    if isinstance(lp, ast.For) and lp is not rp and norm(b.inline(lp.iter)) in (norm(outer.target), f"iter({norm(outer.target)})"):
+                        sts.append("ok")
+                    elif isinstance(lp, ast.While) and any(isinstance(x, ast.Call) and norm(x.func) == "next" for x in ast.walk(lp)) and any(isinstance(d, ast.Assign) and isinstance(d.value, ast.Call) and norm(d.value.func) == "iter" and d.value.args and norm(d.value.args[0]) == norm(outer.target) for d in ast.walk(rp)):
+                        sts.append("ok")  # iter(edge) / next(...) until StopIteration
+                    elif lp is rp:
+                        sts.append("violation")
+                    else:
+                        sts.append("unknown")
+                st_ = "violation" if "violation" in sts else ("ok" if set(sts) == {"ok"} else "unknown")
+                res.add("V-MULT", fb, norm(apps[0]), "all-nodes", st_, "" if st_ == "ok" else "an occurrence does not list every node of the hyperedge", loc(b.fi, rp))
             else:
                 res.unknown("V-MULT", fb, "bipartite_list.append((node, edge_index))", "all-nodes", "the statement that records an occurrence was not recognised", loc(b.fi, rp))
         s = ctx.view("statistical_filters.get_svh")
@@ -354,6 +385,44 @@ def run(ctx):
             res.check(ok, "V-MULT", fs, norm(flags[0]), "single-threshold", "the validated flag is not `pvalue < <one scalar threshold per size>`: a hyperedge could be validated while one with a smaller p-value is not", loc(s.fi, flags[0]))
         else:
             res.unknown("V-MULT", fs, norm(flags[0]), "single-threshold", "the validated flag is not a plain comparison", loc(s.fi, flags[0]))
+        # V-STEPUP: the step-up (Benjamini-Hochberg style) threshold is the LARGEST passing rank's level, `k[ps < k][-1]`; the
+        # level at the NUMBER of passing ranks (`k[count_nonzero(ps < k) - 1]`) is lower whenever a small rank fails and a
+        # larger one passes
+        res.rules["V-STEPUP"] = "the validation threshold is the level of the last (largest) passing rank of the sorted p-values, not the level at the count of passing ranks"
+        with res.guard("V-STEPUP"):
+            thr = c.comparators[0] if isinstance(c, ast.Compare) and isinstance(c.comparators[0], ast.Name) else (c.left if isinstance(c, ast.Compare) and isinstance(c.left, ast.Name) else None)
+            defs = []
+            if thr is not None:
+                for n in walk_no_nested(s.fi.node):
+                    if isinstance(n, ast.Assign) and any(isinstance(t, ast.Name) and t.id == thr.id for t in n.targets) and not (isinstance(n.value, ast.Constant)):
+                        defs.append((s, n.value))
+            # a helper that computes the threshold: judge its returned expressions
+            expanded = []
+            for vw, e in defs:
+                if isinstance(e, ast.Call) and ctx.callees(vw.fi, e):
+                    for callee in ctx.callees(vw.fi, e):
+                        cv = ctx.view(callee)
+                        for r_ in walk_no_nested(callee.node):
+                            if isinstance(r_, ast.Return) and r_.value is not None and not isinstance(r_.value, ast.Constant):
+                                expanded.append((cv, r_.value))
+                else:
+                    expanded.append((vw, e))
+            if not expanded:
+                res.unknown("V-STEPUP", fs, "fdr = k[ps < k][-1]", "last-passing-rank", "the definition of the threshold was not recognised", loc(s.fi, flags[0]))
+            for vw, e in expanded:
+                ei = vw.inline(e)
+                st_ = "unknown"
+                why_ = "the threshold is not a selection from the rank levels"
+                if isinstance(ei, ast.Subscript):
+                    idx = ei.slice
+                    base = ei.value
+                    mask_last = isinstance(idx, ast.UnaryOp) and isinstance(idx.op, ast.USub) and isinstance(idx.operand, ast.Constant) and idx.operand.value == 1 and isinstance(base, ast.Subscript) and any(isinstance(x, ast.Compare) for x in ast.walk(base.slice))
+                    counted = any(isinstance(x, ast.Call) and norm(x.func).split(".")[-1] in ("count_nonzero", "sum", "len") for x in ast.walk(idx)) and any(isinstance(x, ast.Compare) for x in ast.walk(idx))
+                    if mask_last:
+                        st_, why_ = "ok", ""
+                    elif counted:
+                        st_, why_ = "violation", f"the threshold is the level at the NUMBER of passing ranks (`{norm(ei)[:80]}`), not at the largest passing rank: when a small rank fails and a larger one passes the threshold is too low and hyperedges below the true threshold are not validated"
+                res.add("V-STEPUP", vw.fi.short, norm(e)[:120], "last-passing-rank", st_, why_, loc(vw.fi, e))
         pv = [n for n in ast.walk(s.fi.node) if isinstance(n, (ast.Call, ast.Name)) and "_approximated_pvalue" in norm(n)]
         res.add("V-MULT", fs, "_approximated_pvalue", "pvalue-source", "ok" if pv else "unknown", "" if pv else "the p-value computation was not recognised", loc(s.fi, s.fi.node))
     res.assumptions += ["the binomial survival formula and the step-up threshold value are not decided", "`hypergraph` of filter_hypergraph ranges over all four container classes (tables.POLYMORPHIC)"]
